@@ -122,16 +122,18 @@ pub fn body(sc: Sc, obs: Arc<Mutex<O>>) {
                 held.push(rq);
             }
             Release::Respond => {
-                // earlier requests are still unanswered: answer on another thread so that
-                // this one can go on collecting (the response itself waits for its turn)
-                let h = tiny_http::verif_rt::thread::spawn(move || {
-                    let _ = rq.respond(Response::from_string("released"));
-                });
-                std::mem::forget(h);
+                // "has been answered": responses leave in request order, so the earlier
+                // requests are answered first; then this one, before its successor is awaited
+                for h in held.drain(..) {
+                    let _ = h.respond(Response::from_string("ok"));
+                }
+                let _ = rq.respond(Response::from_string("released"));
             }
             Release::Drop => {
-                let h = tiny_http::verif_rt::thread::spawn(move || drop(rq));
-                std::mem::forget(h);
+                for h in held.drain(..) {
+                    let _ = h.respond(Response::from_string("ok"));
+                }
+                drop(rq);
             }
         }
     }
